@@ -182,6 +182,7 @@ func spec_sameCalls(a, b []spec_Call) bool {
 //@   ensures forall i int :: len(old(spec_calls())) <= i && i < len(spec_calls()) ==> spec_calls()[i].Gen == g
 //@   ensures old(c.ignore) ==> c.ignore
 //@   ensures forall i int :: len(old(spec_calls())) <= i && i < len(spec_calls()) && spec_calls()[i].Kind == spec_GenType && spec_signalsIgnore(spec_calls()[i].Err) ==> c.ignore
+//@   ensures forall i int :: len(old(spec_calls())) <= i && i < len(spec_calls()) && (result == nil || i < len(spec_calls())-1) ==> !spec_callFailed(spec_calls()[i])
 //@   ensures old(c.pkg) == nil ==> result == nil && eq(spec_calls(), old(spec_calls()))
 //@   ensures old(c.pkg) != nil && result == nil ==> spec_sameCalls(spec_calls()[len(old(spec_calls())):], spec_dispatchLog(old(c.universe), old(c.args.Globals), old(c.pkgTags), g, old(c.pkg.Types()), spec_sortedKeys(old(c.pkg.Types())), len(old(c.pkg.Types()))))
 //@   ensures result != nil ==> len(spec_calls()) > len(old(spec_calls())) && spec_lastCall().Err == result && !spec_swallowed(result)
@@ -191,6 +192,7 @@ func spec_sameCalls(a, b []spec_Call) bool {
 //@   loop 2 invariant len(spec_calls()) >= len(old(spec_calls())) && eq(spec_calls()[:len(old(spec_calls()))], old(spec_calls()))
 //@   loop 2 invariant (len(spec_calls()) > len(old(spec_calls())) ==> spec_callMark() == len(spec_fx())) && (len(spec_calls()) == len(old(spec_calls())) ==> spec_callMark() == old(spec_callMark()))
 //@   loop 2 invariant forall i int :: len(old(spec_calls())) <= i && i < len(spec_calls()) ==> spec_calls()[i].Gen == g
+//@   loop 2 invariant forall i int :: len(old(spec_calls())) <= i && i < len(spec_calls()) ==> !spec_callFailed(spec_calls()[i])
 //@   loop 2 invariant (old(c.ignore) ==> c.ignore) && (forall i int :: len(old(spec_calls())) <= i && i < len(spec_calls()) && spec_calls()[i].Kind == spec_GenType && spec_signalsIgnore(spec_calls()[i].Err) ==> c.ignore)
 //@   loop 2 invariant spec_sameCalls(spec_calls()[len(old(spec_calls())):], spec_dispatchLog(old(c.universe), old(c.args.Globals), old(c.pkgTags), g, pkgTypes, xs2, it2))
 //@   loop 2 hint spec_dispatchLog(old(c.universe), old(c.args.Globals), old(c.pkgTags), g, pkgTypes, xs2, it2+1)
@@ -232,6 +234,15 @@ func spec_objOK(c *gengoCtx, o types.Object) bool {
 // spec_swallowed: the only generator errors that do not abort the package.
 func spec_swallowed(e error) bool {
 	return e != nil && (errors.Is(e, ErrSkip) || errors.Is(e, ErrIgnore))
+}
+
+// spec_callFailed: this invocation of user code must abort the package: a generator error that is not swallowed,
+// or any error of a deferred callback.
+func spec_callFailed(k spec_Call) bool {
+	if k.Kind == spec_Deferred {
+		return k.Err != nil
+	}
+	return k.Err != nil && !spec_swallowed(k.Err)
 }
 
 // spec_lastCall: the most recent entry of the ghost call log.
@@ -430,6 +441,7 @@ func spec_isStaleRemoval(e spec_Effect, p gengotypes.Package, base string) bool 
 //@   ensures len(spec_calls()) >= len(old(spec_calls())) && eq(spec_calls()[:len(old(spec_calls()))], old(spec_calls()))
 //@   ensures !old(c.pkgChanged(pkg)) ==> finalErr == nil && eq(spec_fx(), old(spec_fx())) && eq(spec_calls(), old(spec_calls()))
 //@   ensures finalErr != nil && len(spec_calls()) > len(old(spec_calls())) && spec_lastCall().Err != nil && !spec_swallowed(spec_lastCall().Err) && len(spec_fx()) == len(old(spec_fx())) ==> eq(spec_fx(), old(spec_fx()))
+//@   ensures forall i int :: len(old(spec_calls())) <= i && i < len(spec_calls()) && spec_callFailed(spec_calls()[i]) ==> finalErr != nil && eq(spec_fx(), old(spec_fx())) && i == len(spec_calls())-1
 //@   ensures len(spec_calls()) > len(old(spec_calls())) ==> spec_callMark() == len(old(spec_fx()))
 //@   ensures forall i int :: len(old(spec_fx())) <= i && i < len(spec_fx()) ==> spec_isOutput(spec_fx()[i], c.universe.Package(pkg).SourceDir(), c.args.OutputFileBaseName) || spec_isStaleRemoval(spec_fx()[i], c.universe.Package(pkg), c.args.OutputFileBaseName)
 //@   ensures forall i int, j int :: len(old(spec_calls())) <= i && i < len(spec_calls()) && 0 <= j && j < len(generators) && (spec_calls()[i].Kind == spec_GenType || spec_calls()[i].Kind == spec_GenAlias) ==> spec_calls()[i].Gen != generators[j]
@@ -437,6 +449,7 @@ func spec_isStaleRemoval(e spec_Effect, p gengotypes.Package, base string) bool 
 //@   loop 1 invariant forall k string :: has(generatedFiles, k) ==> strings.HasPrefix(k, c.args.OutputFileBaseName+".") && filepath.Base(generatedFiles[k]) == k && spec_existsIn(0, len(p.Files()), func(i int) bool { return generatedFiles[k] == p.FileSet().File(p.Files()[i].FileStart).Name() })
 //@   loop 2 invariant p != nil && pkgCtx != nil && pkgCtx.pkg == p && pkgCtx.pkgTags != nil && pkgCtx.args == c.args && pkgCtx.universe == c.universe
 //@   loop 3 invariant eq(spec_fx(), old(spec_fx())) && len(spec_calls()) >= len(old(spec_calls())) && eq(spec_calls()[:len(old(spec_calls()))], old(spec_calls()))
+//@   loop 3 invariant forall i int :: len(old(spec_calls())) <= i && i < len(spec_calls()) ==> !spec_callFailed(spec_calls()[i])
 //@   loop 3 invariant len(spec_calls()) > len(old(spec_calls())) ==> spec_callMark() == len(old(spec_fx()))
 //@   loop 3 invariant (forall r *gengoCtx :: existed(r) ==> r.l == old(r.l)) && (forall r *genfile :: existed(r) ==> r.SnippetWriter == old(r.SnippetWriter))
 //@   loop 3 invariant p != nil && pkgCtx != nil && pkgCtx.pkg == p && pkgCtx.args == c.args && pkgCtx.universe == c.universe && l != nil && spec_pkgOK(c.universe, p) && p == c.universe.Package(pkg)
@@ -447,15 +460,18 @@ func spec_isStaleRemoval(e spec_Effect, p gengotypes.Package, base string) bool 
 //@   note (loop 4 assume) callbacks registered with Defer are non-nil functions
 //@   loop 4 invariant eq(spec_fx(), old(spec_fx())) && len(spec_calls()) >= len(old(spec_calls())) && eq(spec_calls()[:len(old(spec_calls()))], old(spec_calls())) && (len(spec_calls()) > len(old(spec_calls())) ==> spec_callMark() == len(old(spec_fx())))
 //@   loop 4 invariant (forall r *gengoCtx :: existed(r) ==> r.l == old(r.l)) && (forall r *genfile :: existed(r) ==> r.SnippetWriter == old(r.SnippetWriter))
+//@   loop 4 invariant forall i int :: len(old(spec_calls())) <= i && i < len(spec_calls()) ==> !spec_callFailed(spec_calls()[i])
 //@   loop 4 invariant pkgCtxForGen != nil && pkgCtxForGen.genfile != nil && g != nil && p != nil && pkgCtx != nil && pkgCtx.pkg == p && l != nil
 //@   loop 4 invariant forall i int, j int :: len(old(spec_calls())) <= i && i < len(spec_calls()) && 0 <= j && j < len(generators) && (spec_calls()[i].Kind == spec_GenType || spec_calls()[i].Kind == spec_GenAlias) ==> spec_calls()[i].Gen != generators[j]
 
 //@   loop 5 invariant p != nil && pkgCtx != nil && pkgCtx.pkg == p && pkgCtx.args == c.args && spec_pkgOK(c.universe, p) && p == c.universe.Package(pkg) && eq(spec_calls(), entry(spec_calls()))
+//@   loop 5 invariant forall i int :: len(old(spec_calls())) <= i && i < len(spec_calls()) ==> !spec_callFailed(spec_calls()[i])
 //@   loop 5 invariant forall i int :: 0 <= i && i < len(ys5b) ==> spec_goodGenfile(ys5b[i])
 //@   loop 5 invariant len(spec_fx()) >= len(old(spec_fx())) && eq(spec_fx()[:len(old(spec_fx()))], old(spec_fx()))
 //@   loop 5 invariant forall i int :: len(old(spec_fx())) <= i && i < len(spec_fx()) ==> spec_isOutput(spec_fx()[i], p.SourceDir(), c.args.OutputFileBaseName)
 //@   loop 5 invariant forall k string :: has(generatedFiles, k) ==> strings.HasPrefix(k, c.args.OutputFileBaseName+".") && filepath.Base(generatedFiles[k]) == k && spec_existsIn(0, len(p.Files()), func(i int) bool { return generatedFiles[k] == p.FileSet().File(p.Files()[i].FileStart).Name() })
 //@   loop 6 invariant p != nil && p == c.universe.Package(pkg) && eq(spec_calls(), entry(spec_calls())) && len(spec_fx()) >= len(old(spec_fx())) && eq(spec_fx()[:len(old(spec_fx()))], old(spec_fx()))
+//@   loop 6 invariant forall i int :: len(old(spec_calls())) <= i && i < len(spec_calls()) ==> !spec_callFailed(spec_calls()[i])
 //@   loop 6 invariant forall i int :: len(old(spec_fx())) <= i && i < len(spec_fx()) ==> spec_isOutput(spec_fx()[i], p.SourceDir(), c.args.OutputFileBaseName) || spec_isStaleRemoval(spec_fx()[i], p, c.args.OutputFileBaseName)
 
 // spec_goodGenfile: a value stored in the per-package file table is a usable *genfile.
